@@ -272,6 +272,8 @@ def run(ctx, b, drv):
     for i in range(ngen):
         kind, code = gens.text_case(ctx.seed, 'c14', i, ['valid', 'mutate', 'valid', 'oneliner'])
         srcs.append(('gen:%s:%d' % (kind, i), code))
+    for i in range(ngen):
+        srcs.append(('derived:%d' % i, gens.derived(gens.rng(ctx.seed, 'derived-C14', i), GV)))
     used = 0
     for name, code in srcs:
         ctx.count('c14-programs')
